@@ -193,7 +193,20 @@ def run_case(ctx, i, rng):
                     feats = []
                     closure = use_closure(sc)
                     rn = rename_names(closure + sc.chain())
-                    if (missing | extra) <= rn:
+                    # entities that are the target of some rename on the closure, and the local names those renames introduce
+                    ren_ents, ren_locals = set(), set()
+                    for s2 in closure + sc.chain():
+                        for u in s2.uses:
+                            pairs = [(l, r_) for l, r_ in (u.only or []) if l != r_] + list(getattr(u, "renames", None) or [])
+                            ex_ = M.exports(u.mod) if pairs else {}
+                            for l, r_ in pairs:
+                                ren_locals.add(l.lower())
+                                if r_ in ex_:
+                                    ren_ents.add(id(ex_[r_]))
+                    # the recorded mechanism concerns the renamed entity itself (its alias missing, its original name hidden or offered);
+                    # a *different* entity that merely carries the remote name of some rename must still be offered
+                    own = all(x in ren_locals or id(vis[x]) in ren_ents for x in missing)
+                    if (missing | extra) <= rn and own:
                         key = "use-tree:completion-of-renamed-entities"
                     elif any(v == "private" for m in closure for v in m.reexport_vis.values()):
                         key = "use-tree:private-statement-on-use-associated-name-ignored"
